@@ -66,6 +66,17 @@ def iban_lengths(base: str, maxlen: int = 40):
             cd = ri.check_digits(country, t[4:])
             if cd:
                 yield ("prefix-rechecked", country + cd + t[4:])
+    body = base[4:]
+    for k in range(1, min(6, len(body))):
+        # the first k BBAN characters missing, check digits consistent with what is left (mod 97 is
+        # blind to leading zeros, so a 'restore the leading zeros' convenience would accept these)
+        cd = ri.check_digits(country, body[k:])
+        if cd:
+            yield ("head-truncated-rechecked", country + cd + body[k:])
+        zeros = "0" * k + body[k:]
+        cdz = ri.check_digits(country, zeros)
+        if cdz:
+            yield ("head-truncated-zero-led", country + cdz + body[k:])
     for pad in "0A":
         for extra in range(1, maxlen - len(base) + 1):
             body = base[4:] + pad * extra
@@ -89,6 +100,20 @@ def iban_prefixes(base: str):
             yield ("country-prefix-w2", a + b + base[2:])
     yield ("country-prefix-lower", base[:2].lower() + base[2:])
     yield ("all-lower", base.lower())
+
+
+def subst_rechecked(base: str, chars=("0", "5", "A", "Z", "a")):
+    """Every BBAN position x a few characters, with check digits recomputed for the new body (a
+    wrong-class character must be refused by the structure check even when mod 97 is satisfied)."""
+    country, body = base[:2], base[4:]
+    for p in range(len(body)):
+        for ch in chars:
+            if ch == body[p]:
+                continue
+            nb = body[:p] + ch + body[p + 1:]
+            cd = ri.check_digits(country, nb.upper())
+            if cd:
+                yield ("subst-rechecked", country + cd + nb)
 
 
 def iban_checkpairs(base: str):
